@@ -127,9 +127,10 @@ fn puppet_source(w: &W, j: usize) -> Source<u32> {
         let name = w.lock().unwrap().srcs[j].name.clone();
         match m {
             Message::Handshake(sink) => {
+                let prev_alive = { let g = w.lock().unwrap(); g.srcs[j].st == SrcSt::Live || g.srcs[j].st == SrcSt::Pending };
                 let (subs, late) = { let mut g = w.lock().unwrap(); g.srcs[j].subs += 1; g.srcs[j].sink = Some(sink); g.srcs[j].st = SrcSt::Pending; (g.srcs[j].subs, g.late) };
                 log(&w, format!("{} <- subscribe", name));
-                if subs > 1 { violate(&w, "C04", format!("{} subscribed {} times", name, subs)); }
+                if subs > 1 && prev_alive { violate(&w, "C04", format!("{} subscribed again while its previous subscription was still alive", name)); }
                 if late && choose(&w, 2) == 1 { log(&w, format!("{} defers its greeting", name)); return; }
                 src_greet(&w, j);
             }
@@ -207,6 +208,18 @@ fn quiescent_checks(w: &W, single_sink: bool) {
     for (p, what) in v { violate(w, p, what); }
 }
 
+/// C12 at quiescence: the upstream subscription is alive exactly while some sink is attached
+fn share_checks(w: &W) {
+    let g = w.lock().unwrap();
+    let attached = g.sinks.iter().filter(|s| s.st == SinkSt::Live).count();
+    let up_alive = g.srcs[0].st == SrcSt::Live || g.srcs[0].st == SrcSt::Pending;
+    let mut v = vec![];
+    if attached == 0 && up_alive { v.push(("C12", "the upstream subscription is still alive although every sink has detached".to_string())); }
+    if attached > 0 && !up_alive { v.push(("C12", "a sink is attached but no upstream subscription is alive".to_string())); }
+    drop(g);
+    for (p, what) in v { violate(w, p, what); }
+}
+
 // ------------------------------------------------------------------ scenarios
 fn build(op: &str, w: &W) -> Source<u32> {
     let mk = |n: &str| { let j = new_source(w, n); puppet_source(w, j) };
@@ -214,6 +227,7 @@ fn build(op: &str, w: &W) -> Source<u32> {
         "map" => callbag::map(|x: u32| x + 100)(mk("a")),
         "filter" => callbag::filter(|x: &u32| x % 2 == 0)(mk("a")),
         "scan" => callbag::scan(|acc: u32, x: u32| acc + x, 0u32)(mk("a")),
+        "take0" => callbag::take(0)(mk("a")),
         "take1" => callbag::take(1)(mk("a")),
         "take2" => callbag::take(2)(mk("a")),
         "skip1" => callbag::skip(1)(mk("a")),
@@ -221,6 +235,7 @@ fn build(op: &str, w: &W) -> Source<u32> {
         "merge3" => callbag::merge!(mk("a"), mk("b"), mk("c")),
         "concat0" => callbag::concat(Vec::<Source<u32>>::new().into_boxed_slice()),
         "concat2" => callbag::concat!(mk("a"), mk("b")),
+        "concat3" => callbag::concat!(mk("a"), mk("b"), mk("c")),
         "combine2" => callbag::map(|(x, y): (u32, u32)| x * 1000 + y)(callbag::combine!(mk("a"), mk("b"))),
         "from_iter" => callbag::from_iter([1u32, 2, 3]),
         "flatten" => {
@@ -236,14 +251,28 @@ struct Outcome { violations: Vec<(String, String)>, log: Vec<String>, exhausted:
 fn run(op: &str, tape: &[u8]) -> Outcome {
     let w: W = Arc::new(Mutex::new(World { tape: tape.to_vec(), late: op.ends_with('L'), ..Default::default() }));
     let r = catch_unwind(AssertUnwindSafe(|| {
-        if op == "share2" {
+        if op == "share2" || op == "share3" {
             let j = new_source(&w, "a");
             let shared = Arc::new(callbag::share(puppet_source(&w, j)));
-            let s0 = new_sink(&w, "sinkA"); let s1 = new_sink(&w, "sinkB");
-            log(&w, "sinkA subscribes".into()); shared(Message::Handshake(puppet_sink(&w, s0)));
-            log(&w, "sinkB subscribes".into()); shared(Message::Handshake(puppet_sink(&w, s1)));
+            let max_sinks = if op == "share3" { 3 } else { 2 };
+            let names = ["sinkA", "sinkB", "sinkC"];
+            let attach = |w: &W| {
+                let k = w.lock().unwrap().sinks.len();
+                let s = new_sink(w, names[k]);
+                log(w, format!("{} subscribes", names[k]));
+                shared(Message::Handshake(puppet_sink(w, s)));
+            };
+            attach(&w);
+            if op == "share2" { attach(&w); }
+            share_checks(&w);
             for _ in 0..64 {
-                match choose(&w, 4) { 0 => break, 1 => { sink_action(&w, 0, false); } 2 => { sink_action(&w, 1, false); } _ => { src_event(&w, 0, false); } }
+                let n = w.lock().unwrap().sinks.len();
+                let c = choose(&w, 3 + n);
+                if c == 0 { break; }
+                if c == 1 { let st = w.lock().unwrap().srcs[0].st; if st == SrcSt::Pending { src_greet(&w, 0); } else { src_event(&w, 0, false); } }
+                else if c == 2 { if n < max_sinks { attach(&w); } }
+                else { sink_action(&w, c - 3, false); }
+                share_checks(&w);
             }
             return;
         }
